@@ -250,3 +250,15 @@ Proof.
   destruct (no_prefill_build plan [] st0 f s1 (proj1 nopre_plan) E) as [N F]. split; auto. split; auto.
   assert (X : snd (exec_sel fixed_flags plan [] st0) = s1) by (now rewrite E). rewrite <- X. reflexivity.
 Qed.
+
+(** final round: without an idle handler.  A prefilled promise needs none (same response as with
+    one, by C02_no_idle_handler_agrees); an ordinary promise yields null data and the path-less error. *)
+From ApiFu Require Import Fut.NoIdle.
+Example no_handler_not_needed :
+  run_nil fixed_flags Query 3 [(key_a, FP (Some pre_base) false (Some (VLeaf 5)))] =
+  run fixed_flags (fun _ _ => []) Query 0 3 [(key_a, FP (Some pre_base) false (Some (VLeaf 5)))].
+Proof. reflexivity. Qed.
+Example no_handler_error :
+  exists r, run_nil fixed_flags Query 3 [(key_a, FP (Some 0) false (Some (VLeaf 5)))] = Done r /\
+            r_data r = None /\ r_errors r = [no_idle_err] /\ r_rounds r = 0%nat.
+Proof. eexists. split; [vm_compute; reflexivity|]. repeat split. Qed.
